@@ -3358,6 +3358,14 @@ sockaddr_setport(struct sockaddr *sa, ev_uint16_t port)
 	}
 }
 
+/* Set the port of every entry of a (possibly multi-socktype) addrinfo list. */
+static void
+addrinfo_setport(struct evutil_addrinfo *ai, ev_uint16_t port)
+{
+	for (; ai; ai = ai->ai_next)
+		sockaddr_setport(ai->ai_addr, port);
+}
+
 static ev_uint16_t
 sockaddr_getport(struct sockaddr *sa)
 {
@@ -5441,12 +5449,19 @@ evdns_cache_lookup(struct evdns_base *base,
 	find.name = (char *)nodename;
 	cache = SPLAY_FIND(evdns_tree, &base->cache_root, &find);
 	if (cache) {
-		struct evutil_addrinfo *e = cache->ai;
+		struct evutil_addrinfo *e = cache->ai, *prev = NULL;
+		/* The canonical name is stored on the first entry only. */
+		const char *cname = e ? e->ai_canonname : NULL;
 		log(EVDNS_LOG_DEBUG, "Found cache for %s", cache->name);
-		for (; e; e = e->ai_next) {
+		/* an existing record might not have the canonname */
+		if (want_cname && cname == NULL)
+			e = NULL;
+		for (; e; prev = e, e = e->ai_next) {
 			struct evutil_addrinfo *ai_new;
-			// an existing record might not have the canonname
-			if (want_cname && e->ai_canonname == NULL)
+			/* A lookup with unspecified socktype cached one entry
+			 * per socktype; use every address once. */
+			if (prev && prev->ai_addrlen == e->ai_addrlen &&
+			    !memcmp(prev->ai_addr, e->ai_addr, e->ai_addrlen))
 				continue;
 			++n_found;
 			if ((e->ai_addr->sa_family == AF_INET && f == PF_INET6) ||
@@ -5455,17 +5470,16 @@ evdns_cache_lookup(struct evdns_base *base,
 			ai_new = evutil_new_addrinfo_(e->ai_addr, e->ai_addrlen, hints);
 			if (!ai_new) {
 				n_found = 0;
-				goto out;
+				break;
 			}
-			if (want_cname) {
-				ai_new->ai_canonname = mm_strdup(e->ai_canonname);
+			if (want_cname && ai == NULL) {
+				ai_new->ai_canonname = mm_strdup(cname);
 			}
-			sockaddr_setport(ai_new->ai_addr, port);
+			addrinfo_setport(ai_new, port);
 			ai = evutil_addrinfo_append_(ai, ai_new);
 		}
 	}
 	EVDNS_UNLOCK(base);
-out:
 	if (n_found) {
 		if (!ai) {
 			return EVUTIL_EAI_ADDRFAMILY;
@@ -5723,7 +5737,7 @@ evdns_getaddrinfo_fromhosts(struct evdns_base *base,
 			n_found = 0;
 			goto out;
 		}
-		sockaddr_setport(ai_new->ai_addr, port);
+		addrinfo_setport(ai_new, port);
 		ai = evutil_addrinfo_append_(ai, ai_new);
 	}
 	EVDNS_UNLOCK(base);
